@@ -128,6 +128,39 @@ Theorem upload_ops_are_server_operations :
 Proof. exact upload_ops_are_the_server_operations. Qed.
 Print Assumptions upload_ops_are_server_operations.
 
+(* The same upload over the HTTP storage protocol (HTTPServer.write_share_data):
+   there is no explicit close; the bucket is closed by the write for which
+   BucketWriter.write() reports the upload finished, i.e. (`covered`) the union
+   of the DISTINCT byte ranges written so far is the whole share -- a chunk sent
+   twice counts once.  Crash anywhere, restart: the share is absent, or it is
+   served with the data of writes whose ranges cover every byte. *)
+Theorem http_upload_absent_or_byte_complete :
+  forall (si sh size : N) (rec : list N) (writes : list (N * list N)) (s : state) (pre : list pop),
+    s (Final si sh) = None -> length rec = 72%nat ->
+    In pre (crash_prefixes (http_upload_ops si sh size rec writes)) ->
+    let s' := recover (run_p pre s) in
+    s' (Final si sh) = None \/
+    exists m, covered size (write_ranges size (firstn m writes)) = true /\
+              s' (Final si sh) = Some (file_at_close size rec (firstn m writes)) /\
+              view_of (s' (Final si sh)) = VImm (written_data size (firstn m writes)) [rec].
+Proof. exact http_upload_absent_or_byte_complete_proof. Qed.
+Print Assumptions http_upload_absent_or_byte_complete.
+
+Theorem covered_means_every_byte_written :
+  forall (size : N) (ranges : list (N * N)),
+    covered size ranges = true <->
+    forall i, i < size -> exists r, In r ranges /\ fst r <= i /\ i < fst r + snd r.
+Proof. exact covered_spec. Qed.
+Print Assumptions covered_means_every_byte_written.
+
+Theorem http_upload_ops_are_server_operations :
+  forall (si sh size : N) (rec : list N) (writes : list (N * list N)) (s : state),
+    s (Final si sh) = None -> s (Incoming si sh) = None ->
+    sops_ops (ImmAllocate si [] [sh] size rec true :: http_sops si sh size [] writes) s
+    = http_upload_ops si sh size rec writes.
+Proof. exact http_upload_ops_are_the_server_operations. Qed.
+Print Assumptions http_upload_ops_are_server_operations.
+
 (* ---- 4. uploads still in progress are discarded at restart ---------------- *)
 Theorem incoming_discarded :
   forall (s : state) (si sh : N), recover s (Incoming si sh) = None.
@@ -200,6 +233,19 @@ Example ex_upload_nonvacuous :
   run_p (firstn 5 ops) empty_fs (Incoming 0 0) <> None /\
   recover (run_p (firstn 5 ops) empty_fs) (Incoming 0 0) = None.
 Proof. vm_compute. repeat split. discriminate. Qed.
+
+(* a three-chunk share sent as chunk 0, chunk 0 again, chunk 1: three accepted
+   writes, nine bytes in total for a nine-byte share, but the union is six bytes:
+   not finished, nothing renamed, nothing visible after a restart; with chunk 2
+   the last write renames the share into place *)
+Example ex_http_resent_chunk_nonvacuous :
+  let c0 := (0, [1; 2; 3]) in let c1 := (3, [4; 5; 6]) in let c2 := (6, [7; 8; 9]) in
+  covered 9 (write_ranges 9 [c0; c0; c1]) = false /\
+  view_of (recover (run_p (http_upload_ops 0 0 9 wit_rec0 [c0; c0; c1]) empty_fs) (Final 0 0)) = VAbsent /\
+  covered 9 (write_ranges 9 [c0; c0; c1; c2]) = true /\
+  view_of (recover (run_p (http_upload_ops 0 0 9 wit_rec0 [c0; c0; c1; c2]) empty_fs) (Final 0 0))
+  = VImm [1; 2; 3; 4; 5; 6; 7; 8; 9] [wit_rec0].
+Proof. vm_compute. repeat split. Qed.
 
 (* other_shares_untouched: the witness operation names share 0/0 only *)
 Example ex_touched_nonvacuous :
